@@ -333,8 +333,9 @@ class LineSource:
     """file-like object for Parser.parse_all whose readline() lets the user actor run commands
     *between* two reads, the way GDB mode interleaves commands with message arrival."""
 
-    def __init__(self, steps, rec, run_cmd, on_line=None):
-        self.steps = steps          # list of ('line', text) | ('cmd', text)
+    def __init__(self, steps, rec, run_cmd, on_line=None, run_close=None):
+        self.run_close = run_close
+        self.steps = steps          # list of ('line', text) | ('cmd', text) | ('close', connection tag)
         self.i = 0
         self.rec = rec
         self.run_cmd = run_cmd
@@ -347,6 +348,11 @@ class LineSource:
             if kind == 'cmd':
                 self.rec.add('cmd', payload)
                 self.run_cmd(payload)
+                continue
+            if kind == 'close':
+                self.rec.add('close', payload)
+                if self.run_close is not None:
+                    self.run_close(payload)
                 continue
             k = self.rec.add('line', payload)
             if self.on_line is not None:
@@ -382,8 +388,9 @@ def run_component(steps, filter_text=None, break_text=None, show_unprocessed=Tru
         res.conn_manager = cm
         if listener_factory is not None:
             cm.add_connection_list_listener(listener_factory(cm), True)
-        src = LineSource(steps, rec, ctl.process_command)
         parser = t['parse'].Parser(out, cm)
+        src = LineSource(steps, rec, ctl.process_command,
+                         run_close=lambda tag: cm.close_connection(parser.last_time, tag))
         res.parser = parser
         parser.parse_all(src)
         rec.add('eof')
